@@ -56,6 +56,12 @@ def templates(tier, seed):
             if test.startswith("later-elem") and b in ("relh", "circ"):
                 continue
             tds.append(dict(fam="if", body=b, test=test))
+    for start, step in (("0.0625", "0.0625"), ("0.0004", "0.0004"), ("-0.03125", "0.015625"), ("1.00048828125", "0.5")):
+        for n in (2, 3):
+            tds.append(dict(fam="fine-step", body="rectvar", n=n, start=start, step=step))
+    for n in (8, 12):
+        for test in ("eq($i, 3)", "0", "gt($i, 100)"):
+            tds.append(dict(fam="if-in-long-loop", body="rectvar", n=n, test=test))
     for b in B:
         for n in (1, 2, 3):
             tds.append(dict(fam="count-var", body=b, n=n))
@@ -142,6 +148,30 @@ def build(td, wrong=False):
         vars_[ks] = (0, *V)
         vars_[ks + 1] = (1, 0, 16, 1)
         vars_[ks + 2] = (k if fam == "while" else max(k, 1), *V)
+    elif fam == "fine-step":
+        # the loop variable carries its exact value (not a rendering of it): amplified and compared in the body
+        n, st, sp = td["n"], td["start"], td["step"]
+        body = '<rect xy="{{$i * 16}} {{$i * 10000}}" wh="1"/><if test="gt($i * 10000, 1300)"><circle r="1"/></if>'
+        loop = f'<loop count="{n}" loop-var="i" start="{st}" step="{sp}">{body}</loop>'
+        un = ""
+        for k in range(n):
+            # (written as an exact decimal literal: a <var> assigned from an expression stores the 3-decimal rendering)
+            val = Fraction(st) + k * Fraction(sp)
+            lit = ("%.12f" % float(val)).rstrip("0").rstrip(".")
+            assert Fraction(lit) == val
+            un += f'<var i="{lit}"/>{body}'
+    elif fam == "if-in-long-loop":
+        # many passes whose <if> is false must not use anything up (nesting depth in particular)
+        n, test = td["n"], td["test"]
+        kv = alloc([(3, *V)])
+        inner = f'<rect xy="$i [[{kv}]]" wh="1"/>'
+        rest = '<g><g><rect xy="$i 5" wh="1"/></g></g>'
+        body = f'<if test="{test}">{inner}</if>{rest}'
+        pre = '<config depth-limit="7"/>' + pre
+        loop = f'<loop count="{n}" loop-var="i">{body}</loop>'
+        # the twin is unrolled completely: each <if> is replaced by its body or by nothing
+        taken = (lambda k: k == 3) if test == "eq($i, 3)" else (lambda k: False)
+        un = "".join(f'<var i="{k}"/>{inner if taken(k) else ""}{rest}' for k in range(n))
     elif fam == "count-var":
         # the count is an expression over a variable that the body itself changes: it is evaluated once, on entry
         n = td["n"]
@@ -176,7 +206,8 @@ def build(td, wrong=False):
     def check(r):
         d0, d1 = r.docs
         if d1["status"] != "ok":
-            return [Obl("unrolled-document-ok", PASS, ground=True, note="the unrolled document is rejected: " + d1["msg"][:100])]
+            # the unrolling uses plain elements only; if it is rejected the template is wrong (reported as an internal error)
+            raise RuntimeError("the unrolled twin is rejected: " + d1["msg"][:200] + " :: " + d_un[:300])
         if d0["status"] != "ok":
             return [Obl("loop-document-ok", FAIL, ground=True, note=d0["msg"][:200])]
         return compare_outputs(Out(d0["output"]), Out(d1["output"]), wrong=wrong)
